@@ -35,7 +35,7 @@ PROPS = {
                          ("geom", dict(quick=[("C08", 1200)], thorough=[("C08", 40000)]))],
                 design="DESIGN.md section 4 C08",
                 assumptions=["no sampled value is NaN (premise of the binary64 range theorem; monitored on every recorded proposal)"]),
-    "C02": dict(props_file="props/C02.v", engines=[("geom", dict(quick=[("C02", 8000)], thorough=[("C02", 400000)], coqeval_thorough=400))],
+    "C02": dict(props_file="props/C02.v", engines=[("geom", dict(quick=[("C02", 8000), ("ORD", 1500)], thorough=[("C02", 400000), ("ORD", 60000)], coqeval_thorough=400))],
                 design="DESIGN.md section 4 C02"),
     "C03": dict(props_file="props/C03.v", engines=[("geom", dict(quick=[("C03", 8000)], thorough=[("C03", 400000)]))],
                 design="DESIGN.md section 4 C03"),
@@ -70,8 +70,8 @@ PROPS = {
                 design="DESIGN.md section 4 C07"),
     "C18": dict(props_file="props/C18.v", engines=[("opt", dict(focus="C18", quick=250, thorough=6000))],
                 design="DESIGN.md section 4 C18", trusted=[CLI_TRUST]),
-    "C19": dict(props_file="props/C19.v", engines=[("opt", dict(focus="C19", quick=250, thorough=6000))],
-                design="DESIGN.md section 4 C19"),
+    "C19": dict(props_file="props/C19.v", engines=[("opt", dict(focus="C19", quick=250, thorough=6000)), ("cli", dict(quick=0, thorough=2, step_probe=True))],
+                design="DESIGN.md section 4 C19", trusted=[CLI_TRUST]),
     "C20": dict(props_file="props/C20.v", engines=[("opt", dict(focus="C20", quick=250, thorough=6000)), ("cli", dict(quick=2, thorough=30))],
                 design="DESIGN.md section 4 C20", trusted=[CLI_TRUST]),
 }
